@@ -96,12 +96,18 @@ type exec struct {
 var ex *exec
 
 // Active reports whether a scheduler is attached (explored execution in progress).
+//
+//go:norace
 func Active() bool { return ex != nil && !ex.poison }
 
 // Attached reports whether an execution exists (also true while unwinding).
+//
+//go:norace
 func Attached() bool { return ex != nil }
 
 // SetIdleHook installs the function called when no thread is enabled (virtual clock).
+//
+//go:norace
 func SetIdleHook(f func() bool) {
 	if ex != nil {
 		ex.idle = f
@@ -109,6 +115,8 @@ func SetIdleHook(f func() bool) {
 }
 
 // CurrentThread returns the id of the running thread (-1 if none).
+//
+//go:norace
 func CurrentThread() int {
 	if ex == nil || ex.cur == nil {
 		return -1
@@ -117,6 +125,8 @@ func CurrentThread() int {
 }
 
 // CurrentName returns the name of the running thread.
+//
+//go:norace
 func CurrentName() string {
 	if ex == nil || ex.cur == nil {
 		return ""
@@ -125,6 +135,8 @@ func CurrentName() string {
 }
 
 // Steps returns the number of scheduling points taken so far in this execution.
+//
+//go:norace
 func Steps() int {
 	if ex == nil {
 		return 0
@@ -134,12 +146,14 @@ func Steps() int {
 
 type divergence struct{ msg string }
 
+//go:norace
 func (e *exec) unwindIfPoisoned() {
 	if e.poison {
 		runtime.Goexit()
 	}
 }
 
+//go:norace
 func (e *exec) enabled(t *thread) bool {
 	switch t.st {
 	case stRunnable:
@@ -158,6 +172,8 @@ func (e *exec) enabled(t *thread) bool {
 
 // enabledOthers lists enabled threads other than t in ascending id order starting after t
 // (cyclic), so that free rotations are round-robin.
+//
+//go:norace
 func (e *exec) enabledOthers(t *thread) []*thread {
 	var out []*thread
 	n := len(e.threads)
@@ -176,6 +192,7 @@ func (e *exec) enabledOthers(t *thread) []*thread {
 	return out
 }
 
+//go:norace
 func (e *exec) decide(kind byte, n int, free bool, label string) int {
 	idx := len(e.decisions)
 	c := 0
@@ -192,6 +209,8 @@ func (e *exec) decide(kind byte, n int, free bool, label string) int {
 }
 
 // switchTo hands the token from the current thread to next and parks the current thread.
+//
+//go:norace
 func (e *exec) switchTo(next *thread) {
 	t := e.cur
 	next.st = stRunnable
@@ -204,6 +223,8 @@ func (e *exec) switchTo(next *thread) {
 }
 
 // finish ends the execution from the running thread.
+//
+//go:norace
 func (e *exec) finish(outcome string) {
 	if !e.ended {
 		e.ended = true
@@ -215,6 +236,8 @@ func (e *exec) finish(outcome string) {
 }
 
 // Point is a scheduling point: called by hooked operations BEFORE they take effect.
+//
+//go:norace
 func Point(kind string, obj int64) {
 	e := ex
 	if e == nil {
@@ -262,6 +285,8 @@ func Point(kind string, obj int64) {
 }
 
 // yield passes the token on from a thread that cannot continue (blocked or exiting).
+//
+//go:norace
 func (e *exec) yield(t *thread, exiting bool) {
 	for {
 		others := e.enabledOthers(t)
@@ -304,6 +329,8 @@ func (e *exec) yield(t *thread, exiting bool) {
 }
 
 // Block parks the calling thread until some other thread has taken a step.
+//
+//go:norace
 func Block() {
 	e := ex
 	if e == nil {
@@ -320,6 +347,8 @@ func Block() {
 }
 
 // BlockUntil parks the calling thread until pred() holds; pred must be free of side effects.
+//
+//go:norace
 func BlockUntil(pred func() bool) {
 	e := ex
 	if e == nil {
@@ -341,6 +370,8 @@ func BlockUntil(pred func() bool) {
 
 // WaitIdle parks the calling (harness) thread until no other thread is enabled: this is how a
 // scenario says "now look at the quiescent state, then continue with the next action".
+//
+//go:norace
 func WaitIdle() {
 	e := ex
 	if e == nil {
@@ -360,6 +391,8 @@ func WaitIdle() {
 }
 
 // quiescentFor reports whether no thread other than t (and other idle-waiters) is enabled.
+//
+//go:norace
 func (e *exec) quiescentFor(t *thread) bool {
 	for _, o := range e.threads {
 		if o == t || o.idleWait {
@@ -374,6 +407,8 @@ func (e *exec) quiescentFor(t *thread) bool {
 
 // Choose is the single entry for data nondeterminism: it returns a value in [0,n); 0 is the
 // default answer, any other answer costs one deviation.
+//
+//go:norace
 func Choose(n int, label string) int {
 	e := ex
 	if e == nil || n <= 1 {
@@ -384,6 +419,8 @@ func Choose(n int, label string) int {
 }
 
 // Abort ends the execution at once (used by oracles that have seen enough).
+//
+//go:norace
 func Abort() {
 	e := ex
 	if e == nil {
@@ -393,6 +430,8 @@ func Abort() {
 }
 
 // Go spawns a new thread of the closed system.
+//
+//go:norace
 func Go(name string, f func()) {
 	e := ex
 	if e == nil {
@@ -406,6 +445,7 @@ func Go(name string, f func()) {
 	Point("spawn", int64(t.id))
 }
 
+//go:norace
 func (e *exec) threadMain(t *thread, f func()) {
 	defer close(t.exited)
 	t.g.wait()
@@ -413,32 +453,39 @@ func (e *exec) threadMain(t *thread, f func()) {
 	if e.poison {
 		return
 	}
-	defer func() {
-		if r := recover(); r != nil {
-			if d, ok := r.(divergence); ok {
-				e.panicMsg = "DIVERGENCE: " + d.msg
-			} else {
-				e.panicMsg = fmt.Sprintf("panic in thread %s: %v\n%s", t.name, r, trimStack(string(debug.Stack())))
-			}
-			if !e.ended {
-				e.ended = true
-				e.outcome = "panic"
-				e.poison = true
-				close(e.endCh)
-			}
-			return
-		}
-		if e.poison {
-			return
-		}
-		// normal exit of the thread
-		t.st = stDone
-		e.gen++
-		e.yield(t, true)
-	}()
+	defer e.threadEnd(t)
 	f()
 }
 
+// threadEnd is the deferred tail of every thread (a named method, not a closure: closures do
+// not inherit //go:norace).
+//
+//go:norace
+func (e *exec) threadEnd(t *thread) {
+	if r := recover(); r != nil {
+		if d, ok := r.(divergence); ok {
+			e.panicMsg = "DIVERGENCE: " + d.msg
+		} else {
+			e.panicMsg = fmt.Sprintf("panic in thread %s: %v\n%s", t.name, r, trimStack(string(debug.Stack())))
+		}
+		if !e.ended {
+			e.ended = true
+			e.outcome = "panic"
+			e.poison = true
+			close(e.endCh)
+		}
+		return
+	}
+	if e.poison {
+		return
+	}
+	// normal exit of the thread
+	t.st = stDone
+	e.gen++
+	e.yield(t, true)
+}
+
+//go:norace
 func trimStack(s string) string {
 	lines := strings.Split(s, "\n")
 	var keep []string
@@ -455,6 +502,8 @@ func trimStack(s string) string {
 
 // RunOnce executes body as thread 0 under the scheduler, replaying prefix and taking choice 0 at
 // every later decision. It returns when every thread has finished or been unwound.
+//
+//go:norace
 func RunOnce(prefix []PrefixItem, horizon int, keepTrace bool, body func()) *Outcome {
 	if ex != nil {
 		panic("sched: nested execution")
